@@ -7,8 +7,10 @@ from . import c01, c06
 POOLS = {
     "sql_keyword": ["select", "order", "group", "table", "from", "where", "user", "index", "limit", "union", "values", "join", "on", "as", "by", "having", "distinct", "end", "when", "then"],
     "prql_keyword": ["let", "case", "type", "func", "into", "module", "import", "enum", "internal", "prql"],
-    "mixed_case": ["MyCol", "UPPER", "camelCase", "Id2", "TableX", "aB", "Zed", "QQ", "Col_A", "xY"],
-    "space_punct": ["my col", "a-b", "x y z", "col#1", "100%", "a+b", "k/v", "q?", "a,b", "(p)", "semi;colon", "at@sign", "eq=", "star*"],
+    "mixed_case": ["MyCol", "UPPER", "camelCase", "Id2", "TableX", "aB", "Zed", "QQ", "Col_A", "xY", "A", "Z9", "trailing_", "a__b", "x_"],
+    "leading_underscore": ["_x", "__dunder__", "_1", "_", "_Mixed", "_a b"],
+    "space_punct": ["my col", "a-b", "x y z", "col#1", "100%", "a+b", "k/v", "q?", "a,b", "(p)", "semi;colon", "at@sign", "eq=", "star*",
+                    "a.b", "x.y.z", ".lead", "trail.", "tab\tin", " lead", "trail ", "a:b", "a|b", "a&b", "[br]", "{cu}", "back\\slash", "new\nline"],
     "leading_digit": ["1st", "2col", "3", "42x", "0_a", "7up", "9z", "5five"],
     "dollar": ["a$b", "$x", "cost$", "a$$", "$1x"],
     "non_ascii": ["ünï", "列", "😀x", "naïve", "Ωmega", "ñ", "данные", "café"],
